@@ -153,3 +153,51 @@ Ltac net_names_frame H HB :=
   let n0 := fresh "n" in let N0 := fresh "N" in let HN0 := fresh "HN" in
   intros n0 N0 HN0; eapply IndexOK_ext; [by eapply H|];
   intros ?; by eapply key_bus_name_frame; [exact HB|..].
+
+(* the static CAN-IDs collected from a list of messages *)
+Lemma elem_of_static_of ms l c m :
+  (c, m) ∈ static_of ms l ↔ m ∈ l ∧ ∃ M, ms !! m = Some M ∧ m_hasStatic M = true ∧ m_static M = c.
+Proof.
+  unfold static_of. rewrite elem_of_list_omap. split.
+  - intros (x & Hx & Hm). destruct (ms !! x) as [M|] eqn:HM; [|done].
+    destruct (m_hasStatic M) eqn:Hs; [|done]. simplify_eq. eauto.
+  - intros (Hin & M & HM & Hs & <-). exists m. split; [done|]. by rewrite HM, Hs.
+Qed.
+
+Lemma elem_of_static_of_keys ms l c :
+  c ∈ (static_of ms l).*1 ↔ ∃ m M, m ∈ l ∧ ms !! m = Some M ∧ m_hasStatic M = true ∧ m_static M = c.
+Proof.
+  rewrite elem_of_list_fmap. split.
+  - intros ([c' m] & -> & Hin). apply elem_of_static_of in Hin as (? & M & ? & ? & ?). cbn. eauto 8.
+  - intros (m & M & ? & ? & ? & ?). exists (c, m). split; [done|]. apply elem_of_static_of. eauto 8.
+Qed.
+
+(* message record changes that keep sender / name / id / static CAN-ID *)
+Lemma key_msg_name_frame ms m M M' i h :
+  ms !! m = Some M → m_sender M' = m_sender M → m_name M' = m_name M →
+  key_msg_name (<[m:=M']> ms) i h = key_msg_name ms i h.
+Proof.
+  intros HM Hs Hn. destruct (decide (h = m)) as [->|]; [|by apply key_msg_name_ne].
+  by rewrite key_msg_name_eq, (key_msg_name_val _ _ _ _ HM), Hs, Hn.
+Qed.
+Lemma key_msg_id_frame ms m M M' i h :
+  ms !! m = Some M → m_sender M' = m_sender M → m_id M' = m_id M → m_hasStatic M' = m_hasStatic M →
+  key_msg_id (<[m:=M']> ms) i h = key_msg_id ms i h.
+Proof.
+  intros HM Hs Hn Hh. destruct (decide (h = m)) as [->|]; [|by apply key_msg_id_ne].
+  by rewrite key_msg_id_eq, (key_msg_id_val _ _ _ _ HM), Hs, Hn, Hh.
+Qed.
+Lemma key_msg_static_frame ms m M M' i h :
+  ms !! m = Some M → m_sender M' = m_sender M → m_static M' = m_static M → m_hasStatic M' = m_hasStatic M →
+  key_msg_static (<[m:=M']> ms) i h = key_msg_static ms i h.
+Proof.
+  intros HM Hs Hn Hh. destruct (decide (h = m)) as [->|]; [|by apply key_msg_static_ne].
+  by rewrite key_msg_static_eq, (key_msg_static_val _ _ _ _ HM), Hs, Hn, Hh.
+Qed.
+Lemma key_bus_static_msg_frame ms is m M M' b h :
+  ms !! m = Some M → m_sender M' = m_sender M → m_static M' = m_static M → m_hasStatic M' = m_hasStatic M →
+  key_bus_static (<[m:=M']> ms) is b h = key_bus_static ms is b h.
+Proof.
+  intros HM Hs Hn Hh. destruct (decide (h = m)) as [->|]; [|by apply key_bus_static_msg_ne].
+  by rewrite key_bus_static_msg_eq, (key_bus_static_val _ _ _ _ _ HM), Hs, Hn, Hh.
+Qed.
